@@ -354,36 +354,48 @@ impl ExtractorCompactorBackup {
         Ok(())
     }
 
-    /// Append a segment index to the backup (append-only).
+    /// Append a segment index to the backup.
+    ///
+    /// Entries carry no validity mark, so an entry appended in place could
+    /// read back as segment 0 (zero-filled tail) after a crash. The new
+    /// content - what is on disk plus the entry - is written to a temporary
+    /// file, fsynced and renamed over the journal instead: a crash leaves
+    /// the journal without the entry or with it.
     pub fn record_segment(&mut self, segment_index: u16) -> Result<()> {
         self.segments.push(segment_index);
 
-        // Append to the file
-        let mut file = OpenOptions::new()
-            .create(true)
-            .append(true)
-            .open(&self.path)
-            .map_err(|e| StorageError::Archive(format!("failed to append to backup: {e}")))?;
+        let mut data = match std::fs::read(&self.path) {
+            Ok(data) => data,
+            Err(e) if e.kind() == std::io::ErrorKind::NotFound => Vec::new(),
+            Err(e) => {
+                return Err(StorageError::Archive(format!("failed to read backup: {e}")));
+            }
+        };
 
         // If file is empty, write header first
-        let metadata = file
-            .metadata()
-            .map_err(|e| StorageError::Archive(format!("failed to stat backup: {e}")))?;
-
-        if metadata.len() == 0 {
-            file.write_all(&[BACKUP_VERSION]).map_err(|e| {
-                StorageError::Archive(format!("failed to write backup header: {e}"))
-            })?;
-            file.write_all(&BACKUP_MAX_ENTRIES.to_le_bytes())
-                .map_err(|e| {
-                    StorageError::Archive(format!("failed to write backup max entries: {e}"))
-                })?;
+        if data.is_empty() {
+            data.push(BACKUP_VERSION);
+            data.extend_from_slice(&BACKUP_MAX_ENTRIES.to_le_bytes());
         }
+        data.extend_from_slice(&u32::from(segment_index).to_le_bytes());
 
-        file.write_all(&u32::from(segment_index).to_le_bytes())
-            .map_err(|e| {
-                StorageError::Archive(format!("failed to write segment to backup: {e}"))
-            })?;
+        let temp_path = self.path.with_extension("tmp");
+        let written = OpenOptions::new()
+            .write(true)
+            .create(true)
+            .truncate(true)
+            .open(&temp_path)
+            .and_then(|mut file| {
+                file.write_all(&data)?;
+                file.sync_all()?;
+                std::fs::rename(&temp_path, &self.path)
+            });
+        if let Err(e) = written {
+            let _ = std::fs::remove_file(&temp_path);
+            return Err(StorageError::Archive(format!(
+                "failed to write segment to backup: {e}"
+            )));
+        }
 
         Ok(())
     }
